@@ -20,12 +20,13 @@ import (
 	"fmt"
 	"os"
 	"runtime"
+	"runtime/debug"
+	"runtime/pprof"
 	"sort"
 	"strings"
 	"sync"
 	"time"
 
-	"verif/engine/bfs"
 	"verif/engine/ev"
 	"verif/ref/c17tree"
 )
@@ -133,6 +134,11 @@ func histNames(h []int) []string {
 }
 
 func main() {
+	if pf := os.Getenv("C17_CPUPROF"); pf != "" { // development aid
+		f, _ := os.Create(pf)
+		pprof.StartCPUProfile(f)
+		defer pprof.StopCPUProfile()
+	}
 	r := ev.Start("C17")
 	r.Rule("(a) every rooted tree shape (all parent vectors p[i]<i, one per AHU isomorphism class) up to N nodes built as a real block index; every node as active tip x every node as best-header tip; per (shape,tip) every query listed in bounds is compared with a naive parent walk; a case is distinct/non-trivial by (shape canonical form, active tip) with at least 2 nodes; plus trunk+two-linear-branch trees (every fork height <= F, every pair of branch prefixes <= L). (b) explicit-state BFS over all interleavings of header and block deliveries (header before own block, parents before children, headers optional) for every tree shape with <= K blocks x {no invalid block, each node invalid up to symmetry} on real chains; distinct = canonical state (delivered sets, best header, active tip, node statuses, blocks-only reference state)")
 	r.Assume("node hashes are collision free (checked per instance)")
@@ -169,7 +175,7 @@ func main() {
 	if v := os.Getenv("C17_K"); v != "" { // development aid
 		fmt.Sscan(v, &K)
 	}
-	budget := 150 * time.Second
+	budget := 170 * time.Second
 	if thorough {
 		budget = 13 * time.Minute
 	}
@@ -301,12 +307,26 @@ func main() {
 	if only != "" && only != "b" {
 		cfgs = nil
 	}
+	// Every chain instance allocates ~13 MB of short-lived leveldb buffers.  On
+	// this (micro-VM) box first-touch page faults dominate everything else, so
+	// part (b) keeps a small resident heap and reuses it: automatic pacing off, one
+	// explicit collection every gcEvery chain instances (see bWorld.newChain).
+	debug.SetGCPercent(-1)
+	bWorkers := workers
+	if bWorkers > 8 {
+		bWorkers = 8
+	}
+	if v := os.Getenv("C17_BWORKERS"); v != "" { // development aid
+		fmt.Sscan(v, &bWorkers)
+	}
+	if v := os.Getenv("C17_GCEVERY"); v != "" { // development aid
+		fmt.Sscan(v, &gcEvery)
+	}
 	var counts bCounts
 	var bmu sync.Mutex
-	bStates, bTrans, bCfgDone := 0, 0, 0
+	bStates, bTrans, bCfgDone, bChains := 0, 0, 0, 0
 	var bCapped []string
-	inner := 4
-	ev.Par(len(cfgs), workers, func(i int) {
+	ev.Par(len(cfgs), bWorkers, func(i int) {
 		c := cfgs[i]
 		if r.Expired() {
 			bmu.Lock()
@@ -316,12 +336,9 @@ func main() {
 		}
 		w := newBWorld(c.parents, c.invalid)
 		ck := fmt.Sprintf("b|%s|", markedCanon(c.parents, c.invalid))
-		m := bfs.Model[*sysB]{
-			New:     w.newSys,
-			Enabled: func(s *sysB, hist []int) []int { return s.enabled() },
-			Apply:   func(s *sysB, e int) { s.apply(e) },
-			Canon:   func(s *sysB) string { cs := s.canon(); r.Nontrivial(ck + cs); return cs },
-			Check: func(s *sysB, h []int) string {
+		res := exploreB(w, r.Expired,
+			func(cs string) { r.Nontrivial(ck + cs) },
+			func(s *sysB, h []int) {
 				for _, f := range s.check(&counts) {
 					kv := strings.SplitN(f, "|", 2)
 					names := histNames(h)
@@ -329,24 +346,19 @@ func main() {
 						fmt.Sprintf("tree parents=%v invalid node=%d history=%s: %s", c.parents, c.invalid, strings.Join(names, ","), kv[1]),
 						replayObj{Part: "b", Parents: c.parents, Invalid: c.invalid, Hist: names, Fn: kv[0]})
 				}
-				return ""
-			},
-			Free:    func(s *sysB) { s.c.Destroy() },
-			Stop:    r.Expired,
-			Workers: inner,
-		}
-		res := bfs.Run(m)
+			})
 		bmu.Lock()
-		bStates += res.States
-		bTrans += res.Transitions
-		if res.Complete {
+		bStates += res.states
+		bTrans += res.trans
+		bChains += res.chains + len(w.memo)
+		if res.complete {
 			bCfgDone++
 		} else {
-			bCapped = append(bCapped, fmt.Sprintf("%v/inv=%d (depth %d reached)", c.parents, c.invalid, res.MaxDepth))
+			bCapped = append(bCapped, fmt.Sprintf("%v/inv=%d (%d states seen)", c.parents, c.invalid, res.states))
 		}
 		bmu.Unlock()
-		for _, h := range res.SampleHists {
-			if len(c.parents) == K+1 {
+		for _, h := range res.samples {
+			if len(c.parents) == K+1 && c.invalid > 0 {
 				r.Sample(map[string]interface{}{"part": "b", "parents": c.parents, "invalid": c.invalid, "hist": histNames(h)})
 				break
 			}
@@ -359,8 +371,9 @@ func main() {
 	r.Trace(bTrans)
 	r.Eval(bTrans)
 	r.Add("b_configs_completed", int64(bCfgDone))
+	r.Add("b_real_chain_instances", int64(bChains))
 	r.Add("b_states_with_ambiguous_best_header_reading", counts.ambiguous)
-	r.Add("b_isvalidheader_queries_under_invalid_ancestor", counts.underInvalid)
+	r.Add("b_isvalidheader_queries_under_invalid_ancestor_not_judged", counts.underInvalid)
 	if len(bCapped) > 0 {
 		complete = false
 		sort.Strings(bCapped)
@@ -386,5 +399,6 @@ func main() {
 		}
 		r.Violation(f.key, f.what, f.rp)
 	}
+	pprof.StopCPUProfile()
 	r.Finish(complete)
 }
